@@ -253,6 +253,8 @@ def evaluate(prop, sc, want_trace=False):
             out.probes['same_instant_stop_start'] = 1
     if typ == 'iterable' and s.get('one_shot', True) and emitted:
         out.probes['one_shot_iterator'] = 1
+    out.faults['stop_call'] = sum(1 for e in ev if e[2] == 'stop_call')
+    out.faults['start_call'] = sum(1 for e in ev if e[2] == 'start_call')
     out.violations = V
     out.nontrivial = bool(out.probes)
     if want_trace:
